@@ -122,6 +122,7 @@ noncomputable def execC (v : Nat) (ch : Nat → Nat) (w : Nat → Nat → Nat) :
     match evalC ch s.env s.fields s.next s.tick e with
     | (c, n, t) => { s with next := n, tick := t, result := some c, halted := true }
   | .raise, s => if s.halted then s else { s with halted := true }
+  | .widen _, s => s
 
 noncomputable def execListC (v : Nat) (ch : Nat → Nat) (w : Nat → Nat → Nat) : List Stmt → CState → CState
   | [], s => s
